@@ -29,6 +29,8 @@ Fixpoint ends_with (suf s : pystr) : bool :=
 Definition classify (line : pystr) : pat_class :=
   let parts := split_path line in
   match parts with
+  | [] :: (_ :: _) as rest =>       (* /a, /a/b : anchored at the root *)
+      if forallb no_special rest then PAnchored rest else POther
   | [n] =>
       if no_special n then PBare n
       else match n with
